@@ -28,6 +28,14 @@ Print Assumptions C04_source_find_first_without_format_is_the_models.
 Theorem C04_source_existing_formats_is_the_models : forall gens p, src_existing_formats gens p = existing_formats gens p.
 Proof. exact src_existing_formats_is_model. Qed.
 Print Assumptions C04_source_existing_formats_is_the_models.
+(* ... and the statements of commands.seal_file_path that build the list of formats to hash (recorded formats that are
+   requested first; when none of them is, the FIRST recorded format; then the requested ones not yet in the list) are
+   `to_generate`, for every duplicate-free list of recorded formats -- which the list of the previous theorem is *)
+Theorem C04_source_formats_to_hash_is_the_models : forall ex req, NoDup ex -> src_to_generate ex req = to_generate ex req.
+Proof. exact src_to_generate_is_model. Qed.
+Print Assumptions C04_source_formats_to_hash_is_the_models.
+Theorem C04_source_formats_to_hash_hypothesis_holds : forall gens p, NoDup (existing_formats gens p).
+Proof. exact existing_formats_NoDup. Qed.
 
 (* closed form of the record written for a file: the re-checked entries of recorded formats, then -- only if none of
    them failed -- the entries of the formats that are new for the path *)
